@@ -661,7 +661,7 @@ pub fn run_c12(ctx: &Ctx, rep: &mut Report) {
         } else {
             mixed_start(rng, gid, &corpus)
         };
-        let cfg = WalkCfg { max_plies: if miri { 3 } else { rng.range(6, 40) }, null_per_mille: 0, stop_on_divergence: true, follow_library: false };
+        let cfg = WalkCfg { max_plies: if miri { 3 } else { rng.range(6, 40) }, null_per_mille: 0, stop_on_divergence: true, follow_library: false, echo_per_mille: 50 };
         let mut mon = C12 { variant: ctx.variant, prev: None };
         playout(&start, &cfg, rng, &mut mon, rep);
     });
